@@ -765,3 +765,69 @@ def center_case(rng, size, dims=3):
     if dims == 2:
         c[2] = 0.0
     return c, mode
+
+
+# ---------------------------------------------------------------------------
+# exactly representable extreme solids (dyadic coordinates): truth by integer arithmetic
+# ---------------------------------------------------------------------------
+
+def convex_exact_extreme(rng, kind=None):
+    """A convex solid nearer to degeneracy than a float oracle can judge, with coordinates that are exact dyadic rationals,
+    so that the truth comes from integer arithmetic (geom.hull_exact_int, geom.solid_exact_fraction):
+
+    * ``low-apex``: a box with a vertex raised above one or more of its faces by 2^-36 .. 2^-13 of its size - facets
+      that are almost, but not, coplanar (dihedral 1e-11 .. 1e-4 rad);
+    * ``needle`` / ``plate``: a small lattice polytope stretched by 2^10 .. 2^20 along one axis (needle) or two (plate).
+
+    Returns P (float64, exactly Pint / 2^e), Pint (Python ints), e."""
+    from . import geom
+
+    kind = kind or ("low-apex" if rng.random() < 0.5 else ("needle" if rng.random() < 0.6 else "plate"))
+    for _ in range(200):
+        if kind == "low-apex":
+            e = int(rng.integers(13, 37))
+            half = [int(h) << e for h in rng.integers(1, 4, size=3)]
+            pts = [tuple(sx * half[0] if t == 0 else (sy * half[1] if t == 1 else sz * half[2]) for t in range(3))
+                   for sx in (-1, 1) for sy in (-1, 1) for sz in (-1, 1)]
+            nf = int(rng.integers(1, 4))
+            for f in rng.choice(6, size=nf, replace=False):
+                ax, sg = int(f) // 2, (1 if f % 2 else -1)
+                m = int(rng.integers(1, 256))
+                o1, o2 = [t for t in range(3) if t != ax]
+                p = [0, 0, 0]
+                p[ax] = sg * (half[ax] + m)
+                # anywhere well inside the face (on the 1/8 grid of the face), often its centre
+                if rng.random() < 0.5:
+                    p[o1] = int(rng.integers(-5, 6)) * (half[o1] >> 3)
+                    p[o2] = int(rng.integers(-5, 6)) * (half[o2] >> 3)
+                pts.append(tuple(p))
+        else:
+            e = 0
+            base = convex_lattice(rng, k=2, m=int(rng.integers(6, 13)))["P"].astype(int)
+            k1 = int(rng.integers(10, 21))
+            S = [1, 1, 1]
+            axes = list(rng.permutation(3))
+            S[axes[0]] = 1 << k1
+            if kind == "plate":
+                S[axes[1]] = 1 << int(rng.integers(max(10, k1 - 3), k1 + 1))
+            pts = [tuple(int(p[t]) * S[t] for t in range(3)) for p in base]
+        if len(pts) > 14:
+            continue
+        # exact signed permutation of the axes and an exact translation
+        perm = list(rng.permutation(3))
+        sign = [int(x) for x in rng.choice([-1, 1], size=3)]
+        if np.prod(sign) * (1 if perm in ([0, 1, 2], [1, 2, 0], [2, 0, 1]) else -1) < 0:
+            sign[0] = -sign[0]
+        tr = [0, 0, 0] if rng.random() < 0.5 else [int(x) << max(e - 1, 0) for x in rng.integers(-6, 7, size=3)]
+        pts = [tuple(sign[t] * p[perm[t]] + tr[t] for t in range(3)) for p in pts]
+        try:
+            facets, normals = geom.hull_exact_int(pts)
+        except geom.DegenerateInput:
+            continue
+        order = rng.permutation(len(pts))
+        pts = [pts[i] for i in order]
+        P = np.array([[float(x) for x in p] for p in pts]) / float(1 << e)
+        if not all(int(P[i][t] * (1 << e)) == pts[i][t] for i in range(len(pts)) for t in range(3)):
+            continue
+        return {"P": P, "Pint": pts, "e": e, "kind": "exact-" + kind}
+    raise RuntimeError("exact extreme generator failed")
